@@ -89,6 +89,36 @@ def build(recipe: dict, flags_by_assignment: bool = False):
     and the default value are set on the finished objects instead (what FllImporter and interactive use do).
     A recipe with "shared_objects": True gets ONE operator / defuzzifier instance per distinct description, shared by
     all variables and rule blocks (what Engine.configure-style set-up code and hand-written scripts do)."""
+    global make_norm, make_defuzzifier
+    if recipe.get("via_configure"):
+        # operators, activation method and defuzzifier are installed by Engine.configure (by name or as objects)
+        how = recipe["via_configure"]
+        bare = clone({k: v for k, v in recipe.items() if k != "via_configure"})
+        b0, o0 = recipe["blocks"][0], recipe["outputs"][0]
+        for b in bare["blocks"]:
+            assert [b.get(k) for k in ("conjunction", "disjunction", "implication", "activation")] == \
+                   [b0.get(k) for k in ("conjunction", "disjunction", "implication", "activation")]
+            b.update(conjunction=None, disjunction=None, implication=None, activation=["General"])
+        for o in bare["outputs"]:
+            assert (o.get("aggregation"), o.get("defuzzifier")) == (o0.get("aggregation"), o0.get("defuzzifier"))
+            o.update(aggregation=None, defuzzifier=None)
+        engine = build(bare, flags_by_assignment)
+        act = b0.get("activation", ["General"])
+        if how == "names":
+            engine.configure(b0.get("conjunction"), b0.get("disjunction"), b0.get("implication"), o0.get("aggregation"),
+                             o0["defuzzifier"][0] if o0.get("defuzzifier") else None, act[0])
+            if o0.get("defuzzifier") and len(o0["defuzzifier"]) > 1:
+                d = engine.output_variables[0].defuzzifier
+                if hasattr(d, "resolution"):
+                    d.resolution = o0["defuzzifier"][1]
+                else:
+                    d.configure(str(o0["defuzzifier"][1]))
+            if len(act) > 1:
+                engine.rule_blocks[0].activation.configure(" ".join(str(a) for a in act[1:]))
+        else:
+            engine.configure(make_norm(b0.get("conjunction")), make_norm(b0.get("disjunction")), make_norm(b0.get("implication")),
+                             make_norm(o0.get("aggregation")), make_defuzzifier(o0.get("defuzzifier")), make_activation(act))
+        return engine
     if recipe.get("shared_objects"):
         cache: dict = {}
 
@@ -100,7 +130,6 @@ def build(recipe: dict, flags_by_assignment: bool = False):
                 return cache[key]
             return make
 
-        global make_norm, make_defuzzifier
         saved = make_norm, make_defuzzifier
         make_norm, make_defuzzifier = shared(saved[0]), shared(saved[1])
         try:
